@@ -163,6 +163,22 @@ def one_grain(run, seed, idx, mods):
             stale.append("Rod (raised %s)" % e)
     if stale:
         V("grain:stale-cache", "not refreshed after set_ubi: %s" % ",".join(stale))
+    # history: the derived properties are read lazily and cached; whatever the order of the first reads, and however often
+    # they are read again, every property keeps describing the lattice of grain.ubi
+    props = ["mt", "rmt", "unitcell", "B", "U", "UB"]
+    ro_ = rng(seed, "C04", "read-order", idx)
+    gc = grain.grain(ubi.copy())
+    fresh = {k: np.array(getattr(grain.grain(ubi.copy()), k), float) for k in props}      # each from its own fresh object
+    order1 = [props[i] for i in ro_.permutation(len(props))]
+    order2 = [props[i] for i in ro_.permutation(len(props))]
+    for k in order1 + order2:
+        got = np.array(getattr(gc, k), float)
+        run.count("property_reads_in_random_order")
+        if not close(got, fresh[k], 1e-12):
+            V("grain:read-order", "grain.%s read in the order %r differs from grain.%s of a fresh grain of the same ubi by %.3g"
+              % (k, (order1 + order2)[: (order1 + order2).index(k) + 1] if k in order1 else order1 + order2, k,
+                 float(np.abs(got - fresh[k]).max())))
+            break
     # history: the caller re-uses the array it built the grain from; whatever it does to its own buffer the grain's
     # matrices must keep describing one lattice
     src = np.ascontiguousarray(ubi2.copy())
